@@ -24,10 +24,12 @@ META = dict(
     ],
     stubs=["os.waitpid / WIFEXITED / WEXITSTATUS / WIFSIGNALED / WTERMSIG over a symbolic status word", "wait_pid's _timer/_sleep/_pid_exists defaults re-bound to the virtual clock", "os.kill (pid_exists) against the simulated table"],
     bounds=dict(quick=dict(polls=f"<= {MAXPOLLS} (the ramp 0.1 ms -> 40 ms takes 10); exit instant and timeout within 0.2 s of the start so that no path is truncated", wait_procs="1 process (timeout <= 0.15 s), 2 processes (timeout <= 1 ms, exit instants <= 2 ms)"),
+                long_wait="exit instant and timeout any real in [0, 10^6] s; up to 2.5*10^7 steady-state polls replaced by one symbolic clock jump; <= 24 polls executed for real around it",
                 thorough=dict(polls=f"<= {MAXPOLLS}; exit instant / timeout within 0.2 s", wait_procs="1 process (timeout <= 0.15 s), 2 processes (<= 20 ms), 3 processes (<= 0.5 ms)")),
-    outside=["waits longer than 0.2 s of virtual time (polling continues at the 40 ms cap; paths beyond the poll bound are counted as truncated)", "EINTR more than once per wait", "stopped/continued children"],
+    outside=["C15.wait / wait_procs: waits longer than 0.2 s of virtual time (paths beyond the poll bound are counted as truncated); C15.long_wait covers Process.wait() up to 10^6 s by accelerating the steady state, under the run-time check that the loop's frame state is identical at two consecutive capped polls",
+             "EINTR more than once per wait", "stopped/continued children", "wait_procs with waits beyond the stated timeouts"],
     labels=["returns-exit-status", "never-early", "cached-second-call", "sleep-lengths", "timeout-only-if-alive-at-last-poll", "timeout-at-most-one-poll-late", "timeout-fields",
-            "timeout0-never-sleeps", "negative-timeout-ValueError", "non-child-returns-None", "wait_procs-partition", "wait_procs-deadline"],
+            "timeout0-never-sleeps", "negative-timeout-ValueError", "non-child-returns-None", "wait_procs-partition", "wait_procs-deadline", "returns-within-one-poll-of-the-exit"],
 )
 
 
@@ -100,6 +102,68 @@ def install_world(k, worlds):
     d = _psposix.wait_pid.__defaults__
     assert len(d) == 7, d
     return [(_psposix.wait_pid, "__defaults__", (d[0], d[1], waitpid, k.timer, d[4], k.sleep, pid_exists))], pid_exists
+
+
+class Accelerator:
+    """Steady-state acceleration of the polling loop (covers waits of any length).
+
+    Once the back-off has reached its cap the loop's only state is the clock: every further iteration sleeps CAP and polls again.
+    That is *checked*, not assumed: at two consecutive CAP-long sleeps the locals of the running wait_pid() frame (and the cells
+    of its sleep() closure) must be identical; only then does the stub replace "n more identical iterations" by one clock jump of
+    n*CAP with n a symbolic integer >= 0, under the conditions that made those n iterations no-ops: the process was still alive
+    at the last skipped poll and the deadline had not passed at the last skipped deadline test.  What follows the jump is executed
+    by the real code again.  In concrete replays with n <= REAL_MAX nothing is skipped: the real loop runs all n iterations."""
+
+    REAL_MAX = 3000
+
+    def __init__(self, ctx, k, world, stop_at_fn, nmax):
+        self.ctx, self.k, self.w, self.stop_at_fn = ctx, k, world, stop_at_fn
+        self.n = ctx.int("skipped_polls", 0, nmax)
+        self.prev_locals, self.done, self.jumped = None, False, 0
+        self.real = (not ctx.symbolic) and self.n <= self.REAL_MAX
+
+    def _frame_state(self):
+        import sys
+
+        f = sys._getframe(2)
+        while f is not None and f.f_code.co_name != "wait_pid":
+            f = f.f_back
+        if f is None:
+            from psv.sym import HarnessError
+            raise HarnessError("acceleration: wait_pid frame not found")
+        return {k_: v for k_, v in f.f_locals.items() if k_ not in ("retpid", "status") and not callable(v)}
+
+    def sleep(self, d):
+        k = self.k
+        k.sleep(d)
+        if self.done or self.real or F(d) != CAP:
+            return
+        cur = self._frame_state()
+        if self.prev_locals is None:
+            self.prev_locals = cur
+            return
+        if cur != self.prev_locals:
+            from psv.sym import HarnessError
+            raise HarnessError(f"acceleration unjustified: loop state differs between two steady polls: {self.prev_locals} vs {cur}")
+        self.done = True
+        n, w = self.n, self.w
+        # the n skipped iterations: poll at now + i*CAP (i = 0..n-1) finds the process alive, the deadline test that follows
+        # passes, the loop sleeps CAP
+        last = k.now + (n - 1) * CAP
+        stop_at = self.stop_at_fn()
+        conds = [self.ctx.implies(n >= 1, (last - w.t0 < w.E) if w.E is not None else True)]
+        if stop_at is not None:
+            conds.append(self.ctx.implies(n >= 1, last < stop_at))
+        # n is maximal: the first poll that is executed for real again finds the process gone, or the deadline test after it fails
+        # (every execution has such a maximal run of no-op iterations, so nothing is lost and no path is cut by the poll bound)
+        nxt = k.now + n * CAP
+        settle = [(nxt - w.t0 >= w.E)] if w.E is not None else []
+        if stop_at is not None:
+            settle.append(nxt >= stop_at)
+        conds.append(self.ctx.any(settle))
+        self.ctx.assume(self.ctx.all(conds))
+        k.now = k.now + n * CAP
+        self.jumped = n
 
 
 def sleeps_ok(sl):
@@ -216,3 +280,55 @@ def wait_procs(ctx, n, tmo, tmax, never_exit=False):
     if timeout is not None:
         ctx.prove(end - start <= timeout + CAP, "wait_procs-deadline")
     ctx.prove(sleeps_ok([d for d in k.sleeps][:1]), "sleep-lengths")
+
+
+@harness("C15.long_wait", quick=[dict(role="child", tmo="sym"), dict(role="nonchild", tmo="sym"), dict(role="child", tmo="none")],
+         thorough=[dict(role=r, tmo=t) for r in ("child", "nonchild") for t in ("sym", "none")] + [dict(role="child", tmo="sym", exits=False)], cap=80)
+def long_wait(ctx, role, tmo, exits=True):
+    """waits of any length: exit instant and timeout up to 10^6 s, the steady-state polls in between replaced by one symbolic
+    clock jump (see Accelerator); same obligations as C15.wait"""
+    import psv.harness.C15 as me
+
+    BIG = 10**6
+    k = simk.Kernel(ctx)
+    simk.system_files(k)
+    simk.full_process(k, 77)
+    w = World(ctx, k, 77, "", role, exits, None, emax=BIG)
+    timeout = ctx.real("timeout", 0, BIG) if tmo == "sym" else None
+    start_box = []
+    acc = Accelerator(ctx, k, w, lambda: (start_box[0] + timeout) if timeout is not None else None, nmax=BIG * 25)
+    old_max = me.MAXPOLLS
+    me.MAXPOLLS = 24 + (acc.n if acc.real else 0)
+    try:
+        patches, _ = install_world(k, [w])
+        d = patches[0][2]
+        patches = [(_psposix.wait_pid, "__defaults__", d[:5] + (acc.sleep,) + d[6:])]
+        with k.installed(extra=patches):
+            p = psutil.Process(77)
+            start = k.now
+            start_box.append(start)
+            w.t0, w.started = start, True
+            try:
+                r, exc = p.wait(timeout), None
+            except _common.TimeoutExpired as e:
+                r, exc = None, e
+            end = k.now
+    finally:
+        me.MAXPOLLS = old_max
+    sl = list(k.sleeps)
+    ctx.prove(sleeps_ok(sl), "sleep-lengths", detail=f"{sl}")
+    ctx.observe("skipped", acc.jumped if not acc.real else 0)
+    if exc is None:
+        ctx.prove(w.E is not None, "never-early")
+        if w.E is not None:
+            ctx.prove(end - start >= w.E, "never-early", detail=f"returned after {end - start}, exit at {w.E}")
+            if timeout is None:
+                ctx.prove(end - start <= w.E + CAP if role != "child" else ctx.eq(end - start, w.E), "returns-within-one-poll-of-the-exit")
+            ctx.prove(ctx.eq(r, w.expected()) if role == "child" else r is None, "returns-exit-status", detail=f"got {r!r}")
+    else:
+        ctx.prove(timeout is not None, "timeout-only-with-a-timeout")
+        if timeout is not None:
+            last = [a for _, a in w.polls if a != "eintr"]
+            ctx.prove(bool(last) and last[-1] is True, "timeout-only-if-alive-at-last-poll")
+            ctx.prove(ctx.all([end - start >= timeout, end - start <= timeout + CAP]), "timeout-at-most-one-poll-late", detail=f"raised after {end - start}, timeout {timeout}")
+            ctx.prove((exc.seconds is timeout or ctx.eq(exc.seconds, timeout)) and exc.pid == 77, "timeout-fields")
